@@ -143,9 +143,10 @@ def run(ctx):
 
 
 def _run(ctx, uberjob, rng, state, GATHER, Call):
-    ndag = ctx.n(400, 6000)
+    ndag = ctx.n(400, 4000)
     terms, pending = [], []
     for di in range(ndag):
+        gc.freeze()          # keep gc.collect() cheap: what the harness accumulated so far is never scanned again
         fam, spec = gen_dag(rng)
         n = len(spec)
         outspec = gen_output(rng, n)
